@@ -215,6 +215,7 @@ def run_given(strategy, evaluate, max_examples, seed, coll: Collector, known, sh
     from hypothesis.errors import Flaky, FlakyFailure  # noqa: F401
 
     excluded = set()
+    harness = {"trace": None}
     for rnd in range(max_roots):
         st = {"sig": None, "best": None, "t_first": None, "cache": {}}
 
@@ -228,7 +229,14 @@ def run_given(strategy, evaluate, max_examples, seed, coll: Collector, known, sh
                 return
             if shrinking and key in st["cache"]:
                 raise _Violation(st["sig"])
-            out = evaluate(case)
+            try:
+                out = evaluate(case)
+            except Exception:
+                # an exception inside the harness / oracle is never a violation: remember the first one (the run ends with
+                # exit 2) but do not let Hypothesis spend minutes shrinking it
+                if harness["trace"] is None:
+                    harness["trace"] = traceback.format_exc() + "\ncase: " + json.dumps(jsonable(case))[:3000]
+                return
             if out.key is None:
                 out.key = key
             if not shrinking:
@@ -264,6 +272,8 @@ def run_given(strategy, evaluate, max_examples, seed, coll: Collector, known, sh
             if st["best"] is None:
                 raise
             coll.notes.append("hypothesis raised %s while shrinking %s" % (type(e).__name__, st["sig"]))
+        if harness["trace"] is not None:
+            raise HarnessError(harness["trace"])
         if st["best"] is None:
             return
         case, hit = st["best"]
